@@ -25,6 +25,7 @@ import Wz.Proofs.C15_Table
 import Wz.Proofs.C15_Fs2W
 import Wz.Proofs.C15_All
 import Wz.Proofs.C15_W1
+import Wz.Proofs.C15_PollW
 
 namespace Wz.C15
 open Wz.Model Wz.Model.Wasi Wz.Model.DescTable Wz.Gen.Wasi
@@ -603,14 +604,14 @@ theorem designated_by_name1 (h : Host) (m : Mem) (f : Fn1) (a : List Nat) :
     designated h m f.name a = designated1e h m f a := by
   cases f <;> simp [designated, Fn2.all, Fn2.name, Fn1.all, Fn1.name]
 
-/-- where the first batch writes: inside the memory and inside the designated regions — 21 of its 22 functions
-(repaired `readv`, F62; `readv_alias_witness` shows the statement is false for fd_read on the pinned tree).
-Left out: poll_oneoff (writeEvent offsets). -/
+/-- where the first batch writes: inside the memory and inside the designated regions — all 22 functions
+(repaired `readv`, F62; `readv_alias_witness` shows the statement is false for fd_read on the pinned tree; either
+variant of poll_oneoff). -/
 theorem call1e_writes (fixed : Bool) (h : Host) (ha : HostArgsOk h) (fds : Fds) (m : Mem) (hb : Bytes m)
-    (hs : m.size < 9223372036854775808) (f : Fn1) (hf : f ≠ Fn1.poll_oneoff) (a : List Nat) (r : Res)
+    (hs : m.size < 9223372036854775808) (f : Fn1) (a : List Nat) (r : Res)
     (hc : call1e fixed true h fds m f a = some r) : Wr1 m (designated1e h m f (a.map w32)) r := by
   cases f
-  case poll_oneoff => exact absurd rfl hf
+  case poll_oneoff => fs1_wcase hc (pollOneoff_wr1 fixed fds m _ _ _ _ (w32_lt _) (w32_lt _) hs)
   case fd_read => fs1_wcase hc (fdRead_wr1 h fds m hb _ _ _ _ (w32_lt _) (w32_lt _) hs)
   case fd_pread => fs1_wcase hc (fdPread_wr1 fds m hb _ _ _ _ (w32_lt _) (w32_lt _) hs)
   case fd_write => fs1_wcase hc (fdWrite_wr1 fds m _ _ _ _ (w32_lt _) hs)
@@ -633,22 +634,19 @@ theorem call1e_writes (fixed : Bool) (h : Host) (ha : HostArgsOk h) (fds : Fds) 
   case proc_exit => fs1_wcase hc (wr1_nil _ _ _ rfl)
   case sched_yield => fs1_wcase hc (wr1_nil _ _ _ rfl)
 
-/-- **where a call writes, 45 of the 46 functions** (all but poll_oneoff; repaired sock_recv PEEK and readv):
-every write of every alternative lies inside the memory AND inside the regions `designated` gives for the function
-(the table that mirrors spec.go).  `m.size ≤ 2^32` is the wasm32 limit. -/
+/-- **where a call writes, all 46 functions** (repaired sock_recv PEEK = F61 and readv = F62; either variant of
+poll_oneoff): every write of every alternative lies inside the memory AND inside the regions `designated` gives for
+the function (the table that mirrors spec.go).  `m.size ≤ 2^32` is the wasm32 limit. -/
 theorem all_writes_in_memory_and_designated (fixed : Bool) (h : Host) (hh : HostNamesOk h) (ha : HostArgsOk h)
     (fds : Fds) (m : Mem) (hb : Bytes m) (hm : m.size ≤ 4294967296) (fn : String) (hfn : fn ∈ modelled)
-    (hne : fn ≠ "poll_oneoff") (a : List Nat) (rs : List Res)
-    (hc : call fixed true true h fds m fn a = some rs) :
+    (a : List Nat) (rs : List Res) (hc : call fixed true true h fds m fn a = some rs) :
     ∀ r ∈ rs, ∀ w ∈ r.writes, (w.len = 0 ∨ w.off + w.len ≤ m.size) ∧ Wr.within w (designated h m fn (a.map w32)) := by
   have hs : m.size < 9223372036854775808 := by omega
   unfold modelled at hfn
   rcases List.mem_append.1 hfn with h1 | h2
   · obtain ⟨f, rfl⟩ := modelled1_enumerated fn h1
     obtain ⟨r, hr, rfl⟩ := call_fn1 fixed true true h fds m f a rs hc
-    have hf : f ≠ Fn1.poll_oneoff := by
-      intro hf; subst hf; simp [Fn1.name] at hne
-    have := call1e_writes fixed h ha fds m hb hs f hf a r hr
+    have := call1e_writes fixed h ha fds m hb hs f a r hr
     intro r' hr' w hw
     simp only [List.mem_cons, List.not_mem_nil, or_false] at hr'
     subst hr'
